@@ -212,7 +212,7 @@ def instantiate(hyps, ground, max_inst=400):
             if nv == 1:
                 combos = [(t,) for t in tl]
             elif nv == 2:
-                sub = tl[:8]
+                sub = tl[:12]
                 combos = [(a, b) for a in sub for b in sub]
             else:
                 continue
